@@ -37,3 +37,7 @@ Ltac c17_red :=
   cbv [gauss_psf_R gauss_w rsum map fold_right nth legacy_gauss_R legacy_vonmises_R legacy_sinc_R
        sq ssq gauss_iid_logpdf gauss_diag_logpdf post_logd_iid post_logd_diag fst snd length INR].
 Ltac c17_encl := c17_red; interval with (i_prec 90).
+
+(* WangCubic over R (same two lines as the Qc model in C17_TP.v) *)
+Definition cubic_forward_R (x0 x1 : R) : R := 10 * x1 - 10 * (x0 * x0 * x0) + 5 * (x0 * x0) + 6 * x0.
+Definition cubic_jacobian_R (x0 x1 : R) : R * R := (- 30 * (x0 * x0) + 10 * x0 + 6, 10).
